@@ -289,6 +289,21 @@ func finish(o *corr.Out, sc *scenario) {
 	}
 	o.Stat(sc.class)
 	o.Explore(sc.request(), len(sc.acts) >= 3)
+	// trace inclusion: the protocol events of each manager of this scenario must be accepted by the
+	// Lean checker model (Drpc/Manager/Proto.lean); one correspondence case per manager
+	for _, tr := range TakeEvents() {
+		if len(tr) == 0 {
+			continue
+		}
+		nontrivial := false
+		for _, e := range tr {
+			if strings.HasPrefix(e, "stream.new.begin") {
+				nontrivial = true
+			}
+		}
+		o.Case("mgrtrace ev="+strings.Join(tr, ","), fmt.Sprintf("ok n=%d", len(tr)), nontrivial)
+		o.Stat(fmt.Sprintf("mgrtrace:len%d", min(len(tr)/10*10, 60)))
+	}
 	// e2e scenarios have no model counterpart (yet): they are recorded as cases of the exploration
 	// only through the #STATS counters, not replayed on the Lean driver.
 }
